@@ -427,7 +427,7 @@ fn main() {
             run.one(m, &add(rg, num(1.0)), "en", "en", cx, "refs");
         } } }
     }
-    let e2e_stats = e2e::run(&mut rng, &mut run.or, a.thorough);
+    let e2e_stats = e2e::run(&mut rng, &mut run.or, &mut run.cs, a.thorough);
     let Run { cs, or, dist, samples, distinct, .. } = run;
     cs.finish(json!({
         "oracle_checked": or.checked, "oracle_failures": or.failures, "oracle_failures_per_class": or.per_class,
